@@ -9,7 +9,7 @@ C1, C2, C3, C4, C5, C6, C7, C8 = '\x01', '\x02', '\x03', '\x04', '\x05', '\x06',
 
 SPINE_TYPES = ['**kern', '**kern', '**kern', '**text', '**dynam', '**dyn', '**harm', '**mxhm', '**fing', '**root']
 LYRICS = ['la', 'Ky-', '-ri-', '-e', 'lo-', 'A-men', 'do', 're', 'mi', "l'a", 'ça', 'niño', 'Über', 'x y', 'a,b', '"q"', "it's",
-          'rem', 'sol', 'Glo-', '-ri-', '-a', 'ae', 'li', 'too']
+          'rem', 'sol', 'Glo-', '-ri-', '-a', 'ae', 'li', 'too', 'Ky-  ri-', ' lead', 'trail ', 'a  b   c', 'non\u00a0brk']
 DYNAMS = ['p', 'f', 'ff', 'pp', 'mf', 'mp', 'sfz', 'cresc.', 'dim.', '<', '>', '(', ')', '[', ']', 'fp']
 HARMS = ['C7', 'Dm', 'G7/B', 'I', 'V7', 'ii6', 'IV', 'vi', 'Am7', 'Bdim']
 FINGS = ['1', '2', '3', '4', '5', '1 2', '2 3', '5 1']
@@ -200,7 +200,7 @@ def gen_doc(rng, *, kern_only=False, max_spines=4, splits=True, core=False, comm
                 g.flags.add('comment-inside')
                 continue
             if comments and r < 0.12:
-                row(lambda i, sp, ht: Cell(rng.choice(['!', '!fc', '! a field comment', '!LO:TX:a']), 'fcomment', sp, ht))
+                row(lambda i, sp, ht: Cell(rng.choice(['!', '!fc', '! a field comment', '!LO:TX:a', '!  pizz.  sempre', '! trailing ']), 'fcomment', sp, ht))
                 continue
             if r < 0.17:
                 row(lambda i, sp, ht: Cell('.', 'null', sp, ht))
